@@ -225,9 +225,40 @@ pub fn crash_mid_save(rng: &mut Rng) -> Plan {
 	let mut p = history(n_ep, &key0, &steps, rng.next_u64());
 	p.sched.chunk = (8, 64);
 	// replace the first Run by a crash at the n-th storage event, then go on
-	let kind = ["fs_open", "fs_write", "net_reply", "hook_exit"][rng.below(4) as usize].to_string();
+	let kind = ["fs_open", "fs_write", "net_reply", "hook_exit", "net_send", "net_deliver", "fs_close"][rng.below(7) as usize].to_string();
 	let crash = Op::CrashAt { kind, nth: rng.range(1, 6), max_virtual_s: 3000 };
-	let pos = rng.below(p.ops.len() as u64) as usize;
+	// bias: half of the crashes land right after a configuration edit, i.e. inside the traffic
+	// that brings the CA's record into line (account update, key roll-over, their saves)
+	let after_edit: Vec<usize> = p.ops.iter().enumerate().filter(|(_, o)| matches!(o, Op::Edit { .. })).map(|(i, _)| i + 1).collect();
+	let pos = if !after_edit.is_empty() && rng.chance(1, 2) { after_edit[rng.below(after_edit.len() as u64) as usize] } else { rng.below(p.ops.len() as u64) as usize };
 	p.ops.insert(pos, crash);
+	p
+}
+
+/// F6f: account histories in which ONE request of the synchronisation traffic (account update,
+/// key roll-over, registration) is cut before delivery, processed but its reply lost, or refused
+/// with an error; afterwards every endpoint is renewed with room to converge.
+pub fn faulted(rng: &mut Rng) -> Plan {
+	let n_ep = rng.range(1, 2) as usize;
+	let pool = ["contacts", "key", "both", "restart", "renew0", "renew1"];
+	let mut steps: Vec<&str> = vec![["contacts", "key", "both"][rng.below(3) as usize]];
+	for _ in 0..rng.below(3) {
+		steps.push(pool[rng.below(pool.len() as u64) as usize]);
+	}
+	let key0 = key_type(rng, false);
+	let mut p = history(n_ep, &key0, &steps, rng.next_u64());
+	let class = ["account", "account", "keyChange", "newAccount"][rng.below(4) as usize];
+	let kind = match rng.below(5) {
+		0 => FaultKind::Refuse,
+		1 => FaultKind::ResetAfter,
+		2 => FaultKind::Acme { typ: "unauthorized".into(), status: 403, detail: Some("injected".into()) },
+		3 => FaultKind::Acme { typ: "serverInternal".into(), status: 500, detail: Some("injected".into()) },
+		_ => FaultKind::Http { status: 502, body: "<html>bad gateway</html>".into(), content_type: "text/html".into() },
+	};
+	let count = if matches!(kind, FaultKind::Acme { ref typ, .. } if typ == "serverInternal") { 12 } else { 1 };
+	p.faults.push(Fault { site: "net".into(), ca: rng.below(n_ep as u64) as usize, class: class.into(), nth: if class == "newAccount" { 2 } else { 1 }, count, kind, ..Default::default() });
+	// a request that can never succeed again (e.g. a roll-over whose reply was lost) makes the
+	// daemon retry in its tight loop: bound the run
+	p.sched.max_events = 30_000;
 	p
 }
